@@ -188,6 +188,13 @@ func run(ci any, r *mon.Rec) {
 		for _, pre := range [][]byte{{0x00}, {0xFF}, {reply[0]}, {byte(rng.Intn(256))}, {0x00, 0x00}, libx.RandBytes(rng, 2)} {
 			try(append(append([]byte{}, pre...), reply...), "extend-front", len(pre))
 		}
+		// ... by a whole frame: the bytes of the request itself in front (a 2-wire adapter echoing what was sent), and a
+		// second, self-consistent frame behind the reply (an exception frame, a copy of the reply)
+		reqBytes := req.Bytes()
+		try(append(append([]byte{}, reqBytes...), reply...), "extend-front", len(reqBytes))
+		exc := specref.Resp{FC: c.FC, Unit: reply[0], Exception: true, ExCode: 2}.Encode(specref.RTU)
+		try(append(append([]byte{}, reply...), exc...), "extend", len(exc))
+		try(append(append([]byte{}, reply...), reply...), "extend", len(reply))
 	}
 	r.Cover("kind", c.Kind)
 	if c.Size == 0 && c.Kind == "bitflip" {
